@@ -46,7 +46,10 @@ fn sentinel_mutators(t: &mut Tape<'_>, cfg: &mut Cfg) {
         }
         let i = t.below(cfg.sels.len());
         let s = format!("@@I{k}@@");
-        let (kind, op) = match t.below(7) {
+        let (kind, op) = match t.below(10) {
+            7 => (Kind::Element, Op::StreamBefore(vec![s, String::new()], CT::Html)),
+            8 => (Kind::Element, Op::StreamAfter(vec![s, String::new()], CT::Html)),
+            9 => (Kind::EndTag, Op::StreamBefore(vec![s, String::new()], CT::Html)),
             0 => (Kind::Element, Op::Before(s, CT::Html)),
             1 => (Kind::Element, Op::After(s, CT::Html)),
             2 => (Kind::Element, Op::Prepend(s, CT::Html)),
@@ -209,10 +212,20 @@ fn find(hay: &[u8], n: &[u8]) -> Vec<usize> {
     (0..=hay.len() - n.len()).filter(|i| hay[*i..].starts_with(n)).collect()
 }
 
+/// `sink` is `received` with one contiguous run (a token starting with '<') emitted twice:
+/// sink = received[..q] ++ received[q-d..] for the d extra bytes.
+fn duplicated_token_run(sink: &[u8], received: &[u8]) -> bool {
+    if sink.len() <= received.len() {
+        return false;
+    }
+    let d = sink.len() - received.len();
+    (d..=received.len()).any(|q| sink[..q] == received[..q] && sink[q..] == received[q - d..] && received[q - d] == b'<')
+}
+
 fn i_sentinels(out: &[u8]) -> Vec<Vec<u8>> {
     let mut v = vec![];
     let mut i = 0;
-    while i + 7 <= out.len() {
+    while i + 6 <= out.len() {
         if out[i..].starts_with(b"@@I") && out[i + 4..].starts_with(b"@@") {
             v.push(out[i..i + 6].to_vec());
             i += 6;
@@ -319,6 +332,11 @@ pub fn check_c11(c: &Case, cfg: &Cfg, base: &RunOut, r: &RunOut, chunks: &[&[u8]
                 show(&c.input),
                 c.cuts
             );
+            // open finding: a streaming_after writer fails after its token was already emitted:
+            // the bail-out flush re-emits the token's raw bytes (one contiguous duplicated run that starts with '<')
+            if r.stream_failed && finding_open("C11-streaming-after-failure-duplicates-token") && duplicated_token_run(&stripped, &received) {
+                return Err(Failure::known("C11-streaming-after-failure-duplicates-token", msg));
+            }
             // open finding: head bytes of a multi-byte character held by the text decoder are lost
             if cfg.has_text_handler() && finding_open("C11-decoder-held-bytes-lost") && lost_are_partial_char_head(&stripped, &received, p) {
                 return Err(Failure::known("C11-decoder-held-bytes-lost", msg));
@@ -391,6 +409,20 @@ pub fn explore(c: &Case, st: &mut Stats, which: u8) -> PResult {
         later_call_fault |= r.failed_call.is_some_and(|f| f > 0);
         chk(&f, &r, st)?;
     }
+    // streaming content writers failing during token emission
+    let ns = base.stream_calls.min(12);
+    for k in 0..ns {
+        let mut f = cfg.clone();
+        f.fail_stream_at = Some(k);
+        let r = run_ext(&chunks, &f, true);
+        st.eval();
+        if base.result.is_ok() {
+            ensure!(r.stream_failed && matches!(r.result, Err(ErrKind::Handler(_))), "C{which}: the error of streaming content writer #{k} was not propagated: result {:?}", r.result);
+        }
+        later_call_fault |= r.failed_call.is_some_and(|f| f > 0);
+        chk(&f, &r, st)?;
+    }
+    st.label_if(ns > 0, "streaming_writer_faults");
     let mut mem_faults = 0;
     let mut prev_kind: Option<bool> = None;
     for m in &c.mem_limits {
@@ -439,6 +471,15 @@ impl Prop for C11 {
     }
     fn fixed_cases(&self) -> Vec<FixedCase> {
         vec![FixedCase {
+            name: "streaming-after-failure-duplicates-token",
+            finding: Some("C11-streaming-after-failure-duplicates-token"),
+            what: "graceful handler bail-out, '<br>' with a streaming_after writer that fails: the sink holds '<br>' twice",
+            run: Box::new(|st| {
+                let mut cfg = Cfg { graceful_handler: true, ..Cfg::default() };
+                cfg.sels.push(SelSpec { sel: "*".into(), ops: vec![ScriptOp { kind: Kind::Element, nth: None, every_chunk: false, op: Op::StreamAfter(vec!["@@I0@@".into(), String::new()], CT::Html) }], ..Default::default() });
+                explore(&Case { input: b"<br>".to_vec(), cuts: vec![], cfg, mem_limits: vec![] }, st, 11)
+            }),
+        }, FixedCase {
             name: "decoder-held-head-bytes",
             finding: Some("C11-decoder-held-bytes-lost"),
             what: "a write boundary splits a multi-byte character and the text handler fails on the completing chunk: the head bytes held by the text decoder must still reach the sink",
